@@ -60,6 +60,10 @@ func DecodeSgpdSR(hdr BoxHeader, startPos uint64, sr bits.SliceReader) (Box, err
 		if err != nil {
 			return nil, err
 		}
+		if sgEntry.Size() != uint64(descriptionLength) {
+			return nil, fmt.Errorf("sgpd: description length %d does not match %s entry size %d",
+				descriptionLength, b.GroupingType, sgEntry.Size())
+		}
 		b.SampleGroupEntries = append(b.SampleGroupEntries, sgEntry)
 	}
 
